@@ -41,6 +41,11 @@ MANIFEST = {
 
 
 def run(rep, tier):
+    _run(rep, tier)
+    rule_i386_dispatch(rep)
+
+
+def _run(rep, tier):
     rep.explanation = (
         "D1: generators rebuilt from tools/ in a scratch copy, `generate:` recipes replayed with stdout "
         "captured and compared to the checked-in files.  D2: each .S unit of the compilation database "
@@ -234,3 +239,136 @@ def rule_rounds(rep, tier):
                 rep.instance(rid, 12, {"config": b.cfg.name, "rounds": 12})
     if n == 0:
         rep.broken.append("%s: ascon_permute not found in the x86-64 assembly" % rid)
+
+
+# ---------------------------------------------------------------------------
+JCC = {"je": lambda a, b: a == b, "jz": lambda a, b: a == b, "jne": lambda a, b: a != b, "jnz": lambda a, b: a != b,
+       "ja": lambda a, b: a > b, "jae": lambda a, b: a >= b, "jnb": lambda a, b: a >= b, "jb": lambda a, b: a < b,
+       "jbe": lambda a, b: a <= b, "jna": lambda a, b: a <= b, "jnc": lambda a, b: a >= b, "jc": lambda a, b: a < b}
+
+
+def rule_i386_dispatch(rep):
+    """D4i: the i386 ascon_permute starts at the requested round for *every*
+    first_round value.  The dispatch prologue (loads of the stack arguments,
+    cmpl $imm / jcc chains, jmp) is interpreted for first_round = 0..13 and 255
+    with the register that holds the argument tracked through the stack
+    pointer adjustments; the label reached must be the block of that round
+    (values >= 12: the exit).  The round blocks must follow each other in
+    ascending order without any branch, each beginning with the XOR of that
+    round's (bit-interleaved, possibly complemented) constant."""
+    rid = "C18.D4i"
+    rep.rule(rid, "i386 ascon_permute: every first_round value reaches the block of that round; blocks in order with the specification's constants")
+    rel = "src/core/ascon-asm-i386.S"
+    path = os.path.join(repo.REPO, rel)
+    if not os.path.exists(path):
+        rep.broken.append("%s: %s not found" % (rid, rel))
+        return
+    p = repo.run(["clang", "-E", "-P", "-m32", "-U__CYGWIN32__", "-U_WIN32",
+                  "-I", os.path.join(repo.REPO, "src"), "-I", os.path.join(repo.REPO, "src", "core"), "-x", "assembler-with-cpp", path])
+    lines = [l.strip() for l in p.stdout.decode(errors="replace").splitlines()]
+    lines = [l for l in lines if l and not l.startswith(("#", ".p2align", ".text", ".globl", ".type", ".size", ".section", ".def"))]
+    try:
+        start = lines.index("ascon_permute:")
+    except ValueError:
+        rep.broken.append("%s: ascon_permute not found in the preprocessed i386 assembly" % rid)
+        return
+    body = lines[start + 1:]
+    end = next((k for k, l in enumerate(body) if l == "ret"), None)
+    if end is None:
+        rep.broken.append("%s: no ret in ascon_permute" % rid)
+        return
+    body = body[:end + 1]
+    labels = {l[:-1]: k for k, l in enumerate(body) if l.endswith(":")}
+    rlab = {}
+    for lab in labels:
+        mm = re.fullmatch(r"\.L(\d+)", lab)
+        if mm:
+            rlab[int(mm.group(1))] = lab
+    if sorted(rlab) != list(range(13)):
+        rep.violation(rid, "ascon_permute:labels", path, "round labels present: %s, expected .L0 .. .L12" % sorted(rlab))
+        return
+
+    def run_dispatch(v):
+        esp = 0                 # bytes pushed since entry
+        regs = {}               # reg -> ("arg", k) | int
+        flags = None
+        pc = 0
+        steps = 0
+        while pc < len(body) and steps < 400:
+            steps += 1
+            l = body[pc]
+            if l.endswith(":"):
+                return l[:-1]
+            parts = l.split(None, 1)
+            op = parts[0]
+            args = [a.strip() for a in parts[1].split(",")] if len(parts) > 1 else []
+            if op == "pushl":
+                esp += 4
+            elif op == "subl" and len(args) == 2 and args[1] == "%esp" and args[0].startswith("$"):
+                esp += int(args[0][1:], 0)
+            elif op == "movl" and len(args) == 2 and re.fullmatch(r"(\d+)\(%esp\)", args[0]) and args[1].startswith("%"):
+                off = int(re.fullmatch(r"(\d+)\(%esp\)", args[0]).group(1)) - esp
+                regs[args[1]] = ("arg", (off - 4) // 4) if off >= 4 and off % 4 == 0 else None
+            elif op == "cmpl" and len(args) == 2 and args[0].startswith("$") and regs.get(args[1]) == ("arg", 1):
+                flags = (v, int(args[0][1:], 0) & 0xffffffff)
+            elif op in JCC:
+                if flags is None:
+                    raise ValueError("conditional jump %r without a preceding compare of first_round" % l)
+                if JCC[op](flags[0], flags[1]):
+                    pc = labels[args[0]]
+                    continue
+            elif op == "jmp":
+                if args[0] not in labels:
+                    raise ValueError("jump to unknown label in %r" % l)
+                pc = labels[args[0]]
+                continue
+            else:
+                # anything else: must not clobber the register holding first_round or the flags before a jcc
+                if len(args) == 2 and regs.get(args[1]) == ("arg", 1) and op not in ("cmpl", "testl"):
+                    regs[args[1]] = None
+                if op not in ("movl", "notl", "pushl", "leal") and not op.startswith("mov"):
+                    flags = None
+            pc += 1
+        raise ValueError("dispatch did not reach a round label")
+    bad = []
+    try:
+        for v in list(range(14)) + [255, 0x80000000, 0xffffffff]:
+            got = run_dispatch(v)
+            want = rlab[min(v, 12)]
+            if got != want:
+                bad.append((v, got, want))
+    except ValueError as e:
+        rep.unproved_item(rid, "i386 dispatch not interpretable: %s" % e)
+        return
+    if bad:
+        rep.violation(rid, "ascon_permute:dispatch", path,
+                      "ascon_permute (i386) with first_round = %s starts at %s; the block of that round is %s" % (
+                          ", ".join(str(b[0]) for b in bad[:6]), ", ".join(b[1] for b in bad[:6]), ", ".join(b[2] for b in bad[:6])))
+    else:
+        rep.instance(rid, 17, {"unit": rel, "first_round_values": "0..13, 255, 2^31, 2^32-1"})
+    # order and straight-line fallthrough of the round blocks
+    pos = [labels[rlab[r]] for r in range(13)]
+    if pos != sorted(pos):
+        rep.violation(rid, "ascon_permute:block-order", path, "the round blocks .L0 .. .L12 are not laid out in ascending order")
+        return
+    for k in range(pos[0], pos[12]):
+        op = body[k].split(None, 1)[0]
+        if op in JCC or op in ("jmp", "ret", "call") or op.startswith("j"):
+            rep.violation(rid, "ascon_permute:block-branch", path, "branch %r between the round blocks (rounds must fall through)" % body[k])
+            return
+    rep.instance(rid, 1, {"unit": rel, "layout": "ascending, fall-through"})
+    # round constants (bit-interleaved halves; x2 kept inverted so either polarity of the constant is the same XOR)
+    for r in range(12):
+        rc = oracle.round_constant(r)
+        ev = sum(((rc >> (2 * i)) & 1) << i for i in range(4))
+        od = sum(((rc >> (2 * i + 1)) & 1) << i for i in range(4))
+        blk = body[pos[r] + 1:pos[r + 1]]
+        imms = [int(re.match(r"xorl\s+\$(-?\d+|0x[0-9a-fA-F]+)", l).group(1), 0) & 0xffffffff for l in blk
+                if re.match(r"xorl\s+\$(-?\d+|0x[0-9a-fA-F]+)\s*,", l)]
+        okc = len(imms) == 2 and imms[0] in (ev, ~ev & 0xffffffff) and imms[1] in (od, ~od & 0xffffffff)
+        if not okc:
+            rep.violation(rid, "ascon_permute:round-constant:%d" % r, path,
+                          "round %d of the i386 ascon_permute XORs the immediates %s; the specification's constant %#x has "
+                          "bit-interleaved halves %#x / %#x" % (r, [hex(x) for x in imms], rc, ev, od))
+        else:
+            rep.instance(rid, 1)
